@@ -264,11 +264,13 @@ XZ_MAGIC = bytes([0xFD, 0x37, 0x7A, 0x58, 0x5A, 0x00])
 class XzBlock:
     def __init__(self, payload, content, with_packed=False, with_unpacked=False, header_pad=0,
                  filter_id=0x21, props=b'\x16', flags_extra=0, mb_width=None,
-                 packed_override=None, unpacked_override=None, nfilters=1):
+                 packed_override=None, unpacked_override=None, nfilters=1, filters=None):
         self.payload, self.content = payload, content
         self.with_packed, self.with_unpacked, self.header_pad = with_packed, with_unpacked, header_pad
         self.filter_id, self.props, self.flags_extra, self.mb_width = filter_id, props, flags_extra, mb_width
         self.packed_override, self.unpacked_override, self.nfilters = packed_override, unpacked_override, nfilters
+        self.filters = filters            # explicit chain [(filter id, property bytes), ...]; overrides filter_id/props/nfilters
+        if filters: self.nfilters = len(filters)
 
 def xz_block_bytes(b, check, tweak=None):
     """returns (bytes, unpadded_size, unpacked_size); tweak is a dict of field overrides (for mutants)"""
@@ -279,8 +281,8 @@ def xz_block_bytes(b, check, tweak=None):
         body += multibyte(b.packed_override if b.packed_override is not None else len(b.payload), b.mb_width)
     if b.with_unpacked:
         body += multibyte(b.unpacked_override if b.unpacked_override is not None else len(b.content), b.mb_width)
-    for _ in range(b.nfilters):
-        body += multibyte(b.filter_id, b.mb_width) + multibyte(len(b.props), b.mb_width) + b.props
+    for fid_, fprops_ in (b.filters or [(b.filter_id, b.props)] * b.nfilters):
+        body += multibyte(fid_, b.mb_width) + multibyte(len(fprops_), b.mb_width) + fprops_
     total = 1 + len(body) + 4
     total = (total + 3) // 4 * 4 + 4 * b.header_pad
     if total > 1024:
